@@ -80,27 +80,8 @@ def main():
                            if overlay else 'git -C /repo apply patch.diff; bin/vcheck run <property> --tier quick --no-evidence; git -C /repo checkout -- .  (tools/seed_matrix.py)')
         json.dump(meta, open(f'{d}/meta.json', 'w'), indent=1)
         print(s, 'CAUGHT' if caught else 'missed', [(x['exit'], [v['harness'] + ':' + v['id'] for v in x['violations']][:2]) for x in results], flush=True)
-    # matrix over all seeds
-    rows = []
-    for s in sorted(d for d in os.listdir(f'{V}/seeded') if os.path.isdir(f'{V}/seeded/{d}')):
-        mp = f'{V}/seeded/{s}/meta.json'
-        if not os.path.exists(mp):
-            continue
-        m = json.load(open(mp))
-        what = m.get('summary') or m.get('what') or ''
-        if not what and os.path.exists(f'{V}/seeded/{s}/README.md'):
-            what = open(f'{V}/seeded/{s}/README.md').readline().lstrip('# ').strip()
-        hs = []
-        for x in m.get('checks', []):
-            for v in x['violations']:
-                e = f"{v['harness'].replace('VHarness_', '')}: {v['id']}"
-                if e not in hs:
-                    hs.append(e)
-        verdict = 'caught' if m.get('caught_by_quick_check') else ('**not caught**' if 'checks' in m else 'not run')
-        rows.append(f"| {s} | {what[:110]} | {verdict} | {'; '.join(hs[:3])[:230]} |")
-    with open(f'{V}/seeded/MATRIX.md', 'w') as f:
-        f.write('| seed | change | quick check of its property | harness: failing assertion (first three) |\n|---|---|---|---|\n' + '\n'.join(rows) + '\n')
-    print('wrote seeded/MATRIX.md')
+    # matrix over all seeds (first-contact / current / targeted columns)
+    os.system(f'VERIF_DIR={V} python3 {V}/tools/write_matrix.py')
 
 
 if __name__ == '__main__':
